@@ -19,7 +19,7 @@ from ..report import Report
 
 def filters(prog: Program, rep: Report) -> None:
     rule = "R04.1"
-    fi = prog.role_func("release", "__init__")
+    fi = __import__("sa.program", fromlist=["release_init_view"]).release_init_view(prog)
     conds = [n for n in walk_no_nested(fi.node) if isinstance(n, ast.If) and "time_reversal" in unparse(n.test)]
     seen = {}
     for c in conds:
@@ -69,7 +69,9 @@ def filters(prog: Program, rep: Report) -> None:
 def alignment(prog: Program, rep: Report) -> None:
     """R04.2 - also reported under C10 (R10.3): breaks exactly the reversed runs."""
     rule = "R04.2"
-    fi = prog.role_func("release", "__init__")
+    from ..program import reading_view
+
+    fi = reading_view(prog, prog.role_func("release", "__init__"))
     last_df = 0
     for n in walk_no_nested(fi.node):
         if isinstance(n, ast.Assign) and unparse(n.targets[0]) == "self._df":
@@ -110,7 +112,18 @@ def alignment(prog: Program, rep: Report) -> None:
         return "unknown"
     ct, cb = order_class(tv), order_class(bv)
     rep.check(rule, fi.qual, f"order of times ({ct}) and of the per-time frames ({cb}) agree", ct == cb and ct in ("appearance", "ascending"), what_bad=f"times are in order of {ct} (`{short(tv)}`), the per-time frames in {cb} order (`{short(bv)}`): in a time-reversed run the table is in descending time, so release k releases the rows of another time", what_ok=f"both {ct}", loc=fi.loc(defs["self._B"]))
-    ok = isinstance(bv, ast.ListComp) and unparse(bv.elt) in ("x[1]",) or "get_group" in unparse(bv)
+    def second_of_pair(c) -> bool:
+        """[x[1] for x in pairs] or [frame for _, frame in pairs]"""
+        if not (isinstance(c, ast.ListComp) and len(c.generators) == 1 and not c.generators[0].ifs):
+            return False
+        t = c.generators[0].target
+        if isinstance(t, ast.Name):
+            return unparse(c.elt) == f"{t.id}[1]"
+        if isinstance(t, ast.Tuple) and len(t.elts) == 2 and isinstance(t.elts[1], ast.Name):
+            return unparse(c.elt) == t.elts[1].id
+        return False
+
+    ok = second_of_pair(bv) or "get_group" in unparse(bv)
     rep.check(rule, fi.qual, "_B holds the group frames (second item of each groupby pair)", ok, what_bad=f"_B = {short(bv)}", what_ok="x[1]", loc=fi.loc(defs["self._B"]))
     idx = [n for n in walk_no_nested(fi.node) if isinstance(n, ast.Assign) and unparse(n.targets[0]) == "self._index"]
     rep.check(rule, fi.qual, "cursor starts at 0", len(idx) == 1 and unparse(idx[0].value) == "0", what_bad="cursor initialisation", what_ok="0", loc=fi.loc())
@@ -216,9 +229,14 @@ def multiplicity(prog: Program, rep: Report) -> None:
     ok_chain = False
     detail = "no top-level return"
     frame_name = None
+    functional_drop = False
     if len(rets) == 1:
         v = rets[0][1]
         detail = short(v, 160)
+        # frame.drop(columns="mult") / frame.drop("mult", axis=1) applied to the repeated frame
+        if isinstance(v, ast.Call) and isinstance(v.func, ast.Attribute) and v.func.attr == "drop" and "'mult'" in unparse(v) and not any(k.arg == "inplace" for k in v.keywords):
+            functional_drop = True
+            v = v.func.value
         # pd.DataFrame(<group>.to_records(index=False).repeat(<group>.mult))
         if isinstance(v, ast.Call) and unparse(v.func) in ("pd.DataFrame", "pandas.DataFrame", "DataFrame") and len(v.args) == 1:
             chain, root = call_chain(v.args[0])
@@ -254,9 +272,9 @@ def multiplicity(prog: Program, rep: Report) -> None:
         # functional form: frame = frame.drop(columns="mult") folded into the returned expression
         orig = rets[0][0].value
         ok_drop = False
-    rep.check(rule, nx.qual, "mult column dropped from the returned frame after the repetition", ok_drop or _drop_functional(nx), what_bad="mult is appended to the state / dropped before use", what_ok="dropped last", loc=nx.loc())
+    rep.check(rule, nx.qual, "mult column dropped from the returned frame after the repetition", ok_drop or functional_drop or _drop_functional(nx), what_bad="mult is appended to the state / dropped before use", what_ok="dropped last", loc=nx.loc())
     rep.check(rule, nx.qual, "returns the repeated frame", len(rets) == 1, what_bad=f"{len(rets)} top-level returns", what_ok="one return", loc=nx.loc())
-    init = prog.role_func("release", "__init__")
+    init = __import__("sa.program", fromlist=["release_init_view"]).release_init_view(prog)
     d = [n for n in walk_no_nested(init.node) if isinstance(n, ast.If) and "'mult' not in self._df.columns" in unparse(n.test)]
     ok = len(d) == 1 and any(unparse(x) == "self._df['mult'] = 1" for x in d[0].body)
     rep.check(rule, init.qual, "missing mult column defaults to 1", ok, what_bad="rows without mult release no / undefined numbers of particles", what_ok="mult = 1", loc=init.loc())
@@ -265,7 +283,16 @@ def multiplicity(prog: Program, rep: Report) -> None:
     ok = bool(dt) and ("mult=int" in unparse(dt[0].value) or "'mult': int" in unparse(dt[0].value))
     rep.check(rule, rr.qual, "mult is read as an integer", ok, what_bad="repeat() needs integer counts", what_ok="int", loc=rr.loc())
     tot = [n for n in walk_no_nested(init.node) if isinstance(n, ast.Assign) and unparse(n.targets[0]) == "self.total_particle_count"]
-    rep.check(rule, init.qual, "total particle count = sum(mult) + warm particles", bool(tot) and unparse(tot[0].value) == "self._df.mult.sum() + warm_particle_count", what_bad=f"{unparse(tot[0].value) if tot else None}", what_ok="sum of mult", loc=init.loc())
+    ok_tot = False
+    tot_txt = unparse(tot[0].value) if tot else ""
+    if tot and isinstance(tot[0].value, ast.BinOp) and isinstance(tot[0].value.op, ast.Add):
+        sides = [tot[0].value.left, tot[0].value.right]
+        texts = [xunparse(x, init.node).replace("self._df['mult']", "self._df.mult") for x in sides]
+        raw = [unparse(x) for x in sides]
+        for k in (0, 1):
+            if texts[k] == "self._df.mult.sum()" and ("warm" in raw[1 - k] or raw[1 - k] == "self._particle_count"):
+                ok_tot = True
+    rep.check(rule, init.qual, "total particle count = sum(mult) + warm particles", ok_tot, what_bad=f"{unparse(tot[0].value) if tot else None}", what_ok="sum of mult", loc=init.loc())
 
 
 def _drop_functional(nx) -> bool:
@@ -332,7 +359,7 @@ def continuous(prog: Program, rep: Report) -> None:
     rep.check(rule, dz.qual, "row lists exploded back to one row per particle row", "explode" in names and names.index("explode") < names.index("join") if "join" in names else False, what_bad="no explode after the fill: each tick would release one row holding lists", what_ok="explode", loc=dz.loc())
     dt = [n for n in walk_no_nested(dz.node) if isinstance(n, ast.For) and "astype" in unparse(n)]
     rep.check(rule, dz.qual, "column dtypes restored after explode", bool(dt), what_bad="mult stays an object column: repeat() fails or miscounts", what_ok="astype per column", loc=dz.loc())
-    init = prog.role_func("release", "__init__")
+    init = __import__("sa.program", fromlist=["release_init_view"]).release_init_view(prog)
     c = [n for n in walk_no_nested(init.node) if isinstance(n, ast.If) and unparse(n.test) == "continuous"]
     ok = any(any(unparse(x) == "self.release_frequency = normalize_period(release_frequency)" for x in g.body) and any("self.discretize()" in unparse(x) for x in g.body) for g in c)
     rep.check(rule, init.qual, "continuous: frequency normalised, then discretize()", ok, what_bad="continuous mode set-up changed", what_ok="ok", loc=init.loc())
